@@ -144,7 +144,30 @@ func (e *affEnv) strideRec(v ssa.Value, d int) (init, stride lin, ok bool) {
 			return konst(0), konst(0), false
 		}
 	}
+	// an atom: the same value in every iteration only if it is computed once (outside every loop
+	// of the function that owns the loop) or cannot change (constant, parameter, field of the receiver)
+	if !e.invariantAtom(v) {
+		return konst(0), konst(0), false
+	}
 	return e.Of(v), konst(0), true
+}
+
+func (e *affEnv) invariantAtom(v ssa.Value) bool {
+	switch x := v.(type) {
+	case *ssa.Const, *ssa.Parameter, *ssa.Global:
+		return true
+	case ssa.Instruction:
+		if lf, base := loadedField(v); lf != nil {
+			if _, isParam := e.resolve(base).(*ssa.Parameter); isParam {
+				return true // configuration read through the receiver
+			}
+		}
+		if e.reg != nil && x.Parent() != e.reg.Root {
+			return false // computed inside a closure or helper that runs once per iteration
+		}
+		return !inLoop(x)
+	}
+	return false
 }
 
 // lenOf: affine form of len(x)
